@@ -5,7 +5,7 @@
     instance on every run. *)
 From Coq Require Import NArith ZArith QArith Qabs List Bool.
 From SV Require Import Bin.Struct Fmt.DmxCodes Fmt.DmxCodesProofs Fmt.DmxBin Fmt.DmxBinProofs Fmt.DmxKv1 Fmt.DmxKv1Proofs
-  Fmt.DmxScalar Fmt.DmxScalarProofs Fmt.DmxTyped Fmt.DmxTypedProofs Text.Str Text.Escape Text.Tokenizer Text.TokGen Fmt.DmxKv2 Fmt.DmxKv2Proofs Fmt.DmxKv2Nested Fmt.DmxKv2NestedProofs Fmt.DmxKv2Inst Num.Dec6 Fmt.DmxValText Fmt.DmxValTextProofs Fmt.DmxHeader Fmt.DmxHeaderProofs Fmt.DmxMembers Fmt.DmxMembersProofs Fmt.DmxMembersParse Fmt.DmxMembersParseProofs Fmt.DmxMembersKv2 Fmt.DmxMembersKv2Proofs Fmt.DmxKv1Sel Fmt.DmxKv1SelProofs Fmt.DmxKv2Graph Fmt.DmxKv2GraphProofs Fmt.DmxKv2GraphUnique Fmt.DmxKv2GraphFuel Fmt.DmxKv2GraphCull Fmt.DmxKv2GraphLink Fmt.DmxKv2GraphWhole Fmt.DmxPropertyBin Fmt.DmxPropertyKv2 Gen.DmxCodes_gen.
+  Fmt.DmxScalar Fmt.DmxScalarProofs Fmt.DmxTyped Fmt.DmxTypedProofs Text.Str Text.Escape Text.Tokenizer Text.TokGen Fmt.DmxKv2 Fmt.DmxKv2Proofs Fmt.DmxKv2Nested Fmt.DmxKv2NestedProofs Fmt.DmxKv2Inst Num.Dec6 Fmt.DmxValText Fmt.DmxValTextProofs Fmt.DmxHeader Fmt.DmxHeaderProofs Fmt.DmxMembers Fmt.DmxMembersProofs Fmt.DmxMembersParse Fmt.DmxMembersParseProofs Fmt.DmxMembersKv2 Fmt.DmxMembersKv2Proofs Fmt.DmxKv1Sel Fmt.DmxKv1SelProofs Fmt.DmxKv2Graph Fmt.DmxKv2GraphProofs Fmt.DmxKv2GraphUnique Fmt.DmxKv2GraphFuel Fmt.DmxKv2GraphCull Fmt.DmxKv2GraphLink Fmt.DmxKv2GraphWhole Fmt.DmxPropertyBin Fmt.DmxPropertyKv2 Fmt.DmxKv2GraphIso Fmt.DmxKv2GraphCullIds Gen.DmxCodes_gen.
 Import ListNotations.
 
 (** The premises of the theorems below, for the configuration generated from today's source.  The check proves
@@ -711,3 +711,82 @@ Theorem c14_property_kv2_premises_satisfiable :
   root_rule_ok pinned_rootcfg && graph_ok ex_graph && doc_ok pinned_tables pinned_vtnames (flatten ex_graph) = true /\
   (forall j, (j < length ex_graph)%nat -> reach ex_graph j).
 Proof. exact c14_property_kv2_example. Qed.
+
+(** * "Isomorphic graph" with the isomorphism written out (round 5) *)
+
+(** Two graphs (ids pairwise distinct, references in range, stub ids not element ids) whose flat documents are permutations
+    of each other are isomorphic: the renumbering by id [by_id g g'] (index [i] of [g] goes to the index in [g'] of the
+    element with the same id) is injective, keeps the number of elements, and element [by_id i] of [g'] is element [i] of
+    [g] with every element reference [j] replaced by [by_id j] — type, id, name, attribute names with their casing, order,
+    types, shapes and strings equal, NULL and stubs as such, sharing and cycles carried by the renumbered references. *)
+Theorem kv2_permuted_flat_documents_are_isomorphic : forall g g' : gdoc, graph_ok g = true -> graph_ok g' = true ->
+  Permutation.Permutation (flatten g') (flatten g) -> graph_iso (by_id g g') g g'.
+Proof. exact perm_graph_iso. Qed.
+
+(** [graph_iso] leaves no freedom besides the numbering: an isomorphism that is the identity on indexes relates equal graphs. *)
+Theorem kv2_graph_iso_identity : forall g g' : gdoc, graph_iso (fun i => i) g g' -> g' = g.
+Proof. exact graph_iso_identity. Qed.
+
+(** What the fix-up pass of [parse_kv2] builds is a graph whenever no id was registered twice: every resolved reference is
+    in range and an id that stays a stub is not the id of a registered element. *)
+Theorem kv2_fixup_builds_a_graph : forall d g0, link d = Some g0 -> NoDup (map id_text d) -> graph_ok g0 = true.
+Proof. exact link_graph_ok. Qed.
+
+(** The whole property for the nested layout with the isomorphism explicit.  Same hypotheses as [c14_property_kv2]: the
+    tree of blocks [d] the root rule gives is parsed back from its text; the fix-up pass builds a graph [g'] from the
+    elements registered for it; [g'] is isomorphic to the exported graph [g] by the renumbering by id, and the isomorphism
+    maps the exported element to the element [Element.parse] returns (the first one). *)
+Theorem c14_property_kv2_iso :
+  forall (T : tables) (o : opts) (fold : Str.str -> Str.str) (vtnames : list Str.str) (c : rootcfg),
+    kv2_tables_ok T = true -> kv2_opts_ok o = true -> vtnames_ok T fold vtnames = true -> root_rule_ok c = true ->
+    forall g : gdoc, graph_ok g = true -> doc_ok T vtnames (flatten g) = true -> g <> [] -> (forall j, (j < length g)%nat -> reach g j) ->
+      exists d g',
+        nest_doc g (is_root fold vtnames c false g) false = Some d /\
+        parsen_text T o fold vtnames (rendern_doc T d) = Some d /\
+        link (unnest d) = Some g' /\ graph_ok g' = true /\
+        graph_iso (by_id g g') g g' /\ by_id g g' 0%nat = 0%nat.
+Proof. exact c14_property_kv2_iso_gen. Qed.
+
+(** Example: read back from the nested layout, the elements of [ex_graph] are listed in the order of the blocks; the
+    renumbering is 0, 1, 2, 3 -> 0, 3, 1, 2 (not the identity), and what is read is a graph. *)
+Theorem kv2_iso_example :
+  match nest_doc ex_graph (ex_isroot pinned_rootcfg ex_graph) false with
+  | Some d => match link (unnest d) with
+              | Some g' => (map (by_id ex_graph g') [0; 1; 2; 3]%nat, graph_ok g', negb (Nat.eqb (by_id ex_graph g' 1%nat) 1%nat))
+              | None => ([], false, false)
+              end
+  | None => ([], false, false)
+  end = ([0; 3; 1; 2]%nat, true, true).
+Proof. exact iso_example. Qed.
+
+(** The executable test of [graph_iso] the check runs (kernel-evaluated) on the graph the real [Element.parse] returns for every
+    nested-layout case of the correspondence: when it answers [true] the two graphs are isomorphic by that renumbering. *)
+Theorem kv2_graph_iso_test_sound : forall s g g', graph_iso_b s g g' = true -> graph_iso s g g'.
+Proof. exact graph_iso_b_sound. Qed.
+
+(** * [cull_uuid]: what the option loses (round 5) *)
+
+(** The tree of blocks written with [cull_uuid] does not depend on the ids of the elements written inline: for any root
+    predicate, two graphs with the same types, names and attributes (references included) element by element and the same
+    ids for the roots have the same culled export. *)
+Theorem kv2_culled_export_ignores_inline_ids : forall (isroot : nat -> bool) (g g2 : gdoc),
+  differs_in_inline_ids isroot g g2 -> nest_doc g isroot true = nest_doc g2 isroot true.
+Proof. exact culled_export_ignores_inline_ids. Qed.
+
+(** Hence it is the erasure of the unculled tree of any of these graphs: the reader, which gives every block without id
+    line a fresh UUID, returns one of them (that step — a fresh UUID per id-less block — is not modelled; the text
+    correspondence and the oracle compare the structure). *)
+Theorem kv2_culled_export_is_erasure_of_either : forall (isroot : nat -> bool) (g g2 : gdoc),
+  differs_in_inline_ids isroot g g2 ->
+  nest_doc g isroot true = option_map (map (erase_elem true)) (nest_doc g2 isroot false).
+Proof. exact culled_export_is_erasure_of_either. Qed.
+
+(** Example: [ex_graph] with other ids for its two inline elements has the same culled text and another unculled text. *)
+Theorem kv2_culled_export_example :
+  differs_in_inline_ids (ex_isroot pinned_rootcfg ex_graph) ex_graph ex_graph_relabelled /\
+  (let r := ex_isroot pinned_rootcfg ex_graph in
+   map r [0; 1; 2; 3]%nat = [true; true; false; false] /\
+   ondoc_same (nest_doc ex_graph r true) (nest_doc ex_graph_relabelled r true) = true /\
+   ondoc_same (nest_doc ex_graph r false) (nest_doc ex_graph_relabelled r false) = false /\
+   match nest_doc ex_graph r true with Some d => negb (str_eqb (rendern_doc pinned_tables d) []) | None => false end = true).
+Proof. exact (conj ex_graph_relabelled_differs culled_export_example). Qed.
